@@ -6,6 +6,7 @@ from ..ob import Result, mval
 from .. import lib
 
 GUARD = r'<parking_lot::lock_api::MutexGuard<.*> as Deref(?:Mut)?>::deref(?:_mut)?'
+LABEL_OVER = 'the memtable is rotated while the previous immutable memtable has not been flushed yet (it is overwritten: its acknowledged writes are never written to a table and their log is removed)'
 LABEL_STUCK = 'a writer keeps waiting in make_room_for_write although the background work it waits for has finished (its wake-up condition is never re-evaluated)'
 
 
@@ -57,7 +58,9 @@ def o9_3_make_room(mir, tier):
             P[r'DB::set_wal'] = lib.unit
             P[r'SkipListMemTable::new'] = lambda se, env, pc: lib.one(env, {'abstract': True, '__ty': 'MemTable'})
             def swap(se, env, pc, p, new):
-                s = upd(env, rotations=st(env)['rotations'] + 1, full=False); return [(None, {'abstract': True, '__ty': 'MemTable', 'old': True}, s)]
+                pend = se.deref(env, Ref('$g'))[mir.field('GuardedDbFields', 'maybe_immutable_memtable')]
+                over = isinstance(pend, Enum) and pend.tag == 'Some'
+                s = upd(env, rotations=st(env)['rotations'] + 1, full=False, rotated_over_pending=st(env)['rotated_over_pending'] or over); return [(None, {'abstract': True, '__ty': 'MemTable', 'old': True}, s)]
             P[r'ArcSwapAny::swap'] = swap
             P[r'(?:Atomic|AtomicBool)::store'] = lib.unit
             P[r'DB::generate_portable_state'] = lambda se, env, pc, db: lib.one(env, {'abstract': True, '__ty': 'PortableDatabaseState'})
@@ -74,17 +77,19 @@ def o9_3_make_room(mir, tier):
                 posts = [('make_room_for_write returns Ok although a background error is recorded (or fails without one / without a failed WAL creation)',
                           BoolVal(ok) == And(BoolVal(not bad_state), Or(BoolVal(s['wal_attempts'] == 0), wal_ok))),
                          ('the memtable is rotated more than once for one write', BoolVal(s['rotations'] <= 1)),
+                         (LABEL_OVER, BoolVal(not s['rotated_over_pending'])),
                          ('Ok is returned although the active memtable is full (or a forced flush did not rotate it)', Or(BoolVal(not ok), BoolVal(s['rotations'] == 1), And(Not(full), Not(force)))),
                          ('a compaction is not scheduled for the memtable that was just made immutable', BoolVal(s['scheduled'] == s['rotations'] or not ok)),
                          ('the writer waits although nothing it could wait for is pending (or does not wait while the previous memtable is still being flushed / level 0 is at its limit)',
                           BoolVal(True))]
                 res.cases['imm=%s bad=%s -> %s waits=%d rotations=%d reads=%d' % (has_imm, bad_state, 'Ok' if ok else 'Err', s['waits'], s['rotations'], s['l0_reads'])] = 1
                 for label, post, m in ex.check_posts(posts, pc):
-                    res.violations.append({'label': label, 'model': {'level0': mval(m, l0), 'full': mval(m, full), 'force': mval(m, force), 'immutable_memtable': has_imm}, 'replay': None,
-                                           'confirmed_by': {'reproduced': False, 'detail': 'no native scenario for this label'}})
+                    rep = label == LABEL_OVER
+                    res.violations.append({'label': label, 'model': {'level0': mval(m, l0), 'full': mval(m, full), 'force': mval(m, force), 'immutable_memtable': has_imm}, 'replay': ['forced_flush_over_pending'] if rep else None,
+                                           'confirmed_by': None if rep else {'reproduced': False, 'detail': 'no native scenario for this label'}})
             g = mir.mk_struct('GuardedDbFields', maybe_bad_database_state=Enum('Some', (Enum('Write', ({'str': 'bad'},), 'RainDBError'),)) if bad_state else Enum('None'),
                               maybe_immutable_memtable=Enum('Some', ({'abstract': True, '__ty': 'MemTable'},)) if has_imm else Enum('None'), version_set={'abstract': True, '__ty': 'VersionSet'})
-            env = {'$state': {'l0': l0, 'full': full, 'waits': 0, 'rotations': 0, 'scheduled': 0, 'l0_reads': 0, 'wal_attempts': 0}, '$db': {'abstract': True, '__ty': 'DB'}, '$g': g, '$guard': Ref('$g')}
+            env = {'$state': {'l0': l0, 'full': full, 'waits': 0, 'rotations': 0, 'scheduled': 0, 'l0_reads': 0, 'wal_attempts': 0, 'rotated_over_pending': False}, '$db': {'abstract': True, '__ty': 'DB'}, '$g': g, '$guard': Ref('$g')}
             ex.top(fn, [Ref('$db'), Ref('$guard'), force], env, pre, k)
             if ex.bound_hits:
                 res.violations.append({'label': LABEL_STUCK, 'case': {'immutable_memtable': has_imm, 'bad_state': bad_state}, 'where': str(ex.bound_hits[0])[:200],
@@ -102,6 +107,9 @@ def o9_3_make_room(mir, tier):
 def o9_3_confirm(v, out):
     """Native: 12 overlapping level-0 files and a full memtable; a writer parks on the stop-writes condition; the background
     compaction then drains level 0; the writer must be released within 15 s."""
+    if v['replay'][0] == 'forced_flush_over_pending':
+        if out.get('_rc') != 0: return (False, 'native run failed: %s' % out.get('_stderr', '')[-300:])
+        return (out.get('lost', '0') != '0', 'a forced flush was requested while a rotated memtable was still waiting for its flush: %s of %s acknowledged keys are unreadable afterwards' % (out.get('lost'), out.get('written')))
     if out.get('_rc') != 0 and not out.get('_timeout'): return (False, 'native run failed: %s' % out.get('_stderr', '')[-300:])
     stuck = out.get('writer') == 'stuck' or bool(out.get('_timeout'))
     return (stuck and out.get('parked') == 'true', 'level-0 files %s -> %s, writer parked=%s, after the compaction: writer=%s' % (out.get('level0_files'), out.get('level0_files_after'), out.get('parked'), out.get('writer')))
